@@ -8,6 +8,7 @@ CONSTANTS
   SharedEqualRecords = FALSE
   ClassLevelOption = FALSE
   StoreBeforeValidate = TRUE
+  ReorderStoresPlainKeys = FALSE
   Emit = FALSE
   EmitOff = 0
 SPECIFICATION Spec
